@@ -36,7 +36,8 @@ TRUSTED = [
 # --------------------------------------------------------------------------
 def _np_dtype(name):
     return {"int8": np.int8, "int16": np.int16, "uint16": np.uint16, "int32": np.int32,
-            "int64": np.int64, "float64": np.float64, "float32": np.float32}[name]
+            "int64": np.int64, "float64": np.float64, "float32": np.float32, "uint32": np.uint32, "uint8": np.uint8,
+            "bool": np.bool_}[name]
 
 
 def rank_keys(values):
@@ -114,6 +115,8 @@ def exec_split(case):
         arr = arr[::-1].copy()[::-1]
     elif lay == "column":
         arr = arr.reshape(-1, 1)
+    elif lay == "list":
+        arr = [int(v) for v in vals]
     elif lay == "matrix":
         arr = arr.reshape(-1, case["ncol"])
     r.inp = [0] + [int(v) for v in vals]
@@ -169,6 +172,41 @@ def exec_fronts1(case):
     sc = case.get("scale", 1)     # values and steps are multiples of 1/scale (exact in binary floating point)
     tags = {"kind": "fronts1", "mode": mode}
     try:
+        if mode in (2, 3):
+            # 0/1 train held in a container without a sign: bool (mode 2) or uint8 (mode 3)
+            arr = np.array(x, dtype=np.bool_ if mode == 2 else np.uint8)
+            res = {}
+            for name, f in (("fronts", lambda: utils.fronts(arr, **({} if dflt else {"step": step}), **kw)),
+                            ("rises", lambda: utils.rises(arr, **({} if dflt else {"step": rstep}), **kw)),
+                            ("falls", lambda: utils.falls(arr, **({} if dflt else {"step": fstep}), **kw))):
+                res[name] = _try(f)
+            r.inp = [1, step, rstep, fstep, mode] + [int(v) for v in x]
+            e_ind, e_sg, e_ri, e_fa = _fronts_oracle_1d(x, step, rstep, fstep)
+            out = []
+            (fr, exc) = res["fronts"]
+            if exc is not None:
+                out += [-7, -7]
+                g_ind, g_sg = None, None
+            else:
+                g_ind, g_sg = [int(i) for i in fr[0]], [int(v) for v in fr[1]]
+                out += [len(g_ind)] + g_ind + [len(g_sg)] + g_sg
+            g = {}
+            for name in ("rises", "falls"):
+                val, exc = res[name]
+                g[name] = None if exc is not None else [int(i) for i in val]
+                out += [-7] if exc is not None else [len(g[name])] + g[name]
+            r.out = out
+            ctags = dict(tags, container="bool" if mode == 2 else "uint8")
+            if g_ind != e_ind:
+                r.bad.append(("fronts indices on a %s train are %s, its changes are at %s" % (
+                    ctags["container"], g_ind and g_ind[:8], e_ind[:8]), dict(ctags, defect="indices")))
+            elif g_sg != e_sg or g["rises"] != e_ri or g["falls"] != e_fa:
+                r.bad.append(("%s train %s: polarities %s (expected %s), rises %s (expected %s), falls %s (expected %s)"
+                              % (ctags["container"], x[:10], g_sg and g_sg[:6], e_sg[:6], g["rises"] and g["rises"][:6],
+                                 e_ri[:6], "raises %r" % (res["falls"][1],) if g["falls"] is None else g["falls"][:6],
+                                 e_fa[:6]), dict(ctags, defect="unsigned_container_polarity")))
+            r.nontrivial = len(e_ind) > 0
+            return r
         if mode == 0:
             key = int
             if dflt:
@@ -326,8 +364,73 @@ def _adjust(i, n):
     return min(i, n)
 
 
+THR_DEFAULT = float(np.float32(1.2))     # read_sync's default threshold as the float32 comparison sees it
+
+
+def exact_floor(vals):
+    """np.percentile(vals, 10) (method 'linear') in exact rational arithmetic; also whether the float
+    computation is exact (no interpolation between different values)."""
+    srt = sorted(vals)
+    n = len(srt)
+    lo, g = divmod(n - 1, 10)
+    hi = min(lo + 1, n - 1)
+    p = Fraction(srt[lo]) + Fraction(srt[hi] - srt[lo]) * g / 10
+    return p, (g == 0 or srt[lo] == srt[hi])
+
+
+def analog_safety(D, sel, acols, gain_f, thr_eff, use_floor):
+    """expected analog bits (exact arithmetic) and whether float32 rounding could flip one of them:
+    the floor is interpolated (inexact in float32) and some sample sits within 64 float32 ulps of
+    floor + threshold (the implementation's error is below 4 ulps: margin >= 10x)."""
+    bits = [[0] * len(acols) for _ in sel]
+    safe = True
+    for c, col in enumerate(acols):
+        vals = [Fraction(int(D[t, col])) * gain_f for t in sel]
+        if use_floor and vals:
+            p, exact = exact_floor(vals)
+        else:
+            p, exact = Fraction(0), True
+        big = max([abs(v) for v in vals] + [abs(p), Fraction(1, 1024)])
+        tol = big * 64 / 2 ** 24
+        for k, v in enumerate(vals):
+            m = v - p - Fraction(thr_eff)
+            bits[k][c] = 1 if m >= 0 else 0
+            if not exact and abs(m) < tol:
+                safe = False
+    return bits, safe
+
+
+def _enc_rows(a):
+    a = np.asarray(a)
+    if a.ndim != 2:
+        return [-3, a.ndim]
+    return [1, a.shape[0]] + [v for row in a.tolist() for v in [len(row)] + [int(q) for q in row]]
+
+
+def _enc_volts(a):
+    if a is None:
+        return [2]
+    a = np.asarray(a)
+    if a.ndim != 2:
+        return [-3, a.ndim]
+    out = [1, a.shape[0]]
+    for row in a.tolist():
+        out.append(len(row))
+        for q in row:
+            f = Fraction(float(q)) * ONE
+            out.append(int(f) if f.denominator == 1 else -(10 ** 17))
+    return out
+
+
+def _try(f):
+    try:
+        return f(), None
+    except Exception as e:       # noqa
+        return None, e
+
+
 def exec_sync_read(case):
-    """Mock recording -> Reader.read_sync(_digital/_analog)."""
+    """Mock recording -> Reader.read_sync / read_sync_digital / read_sync_analog / read(...)[1]."""
     import spikeglx
     r = Result()
     typ, counts, ns = case["typ"], case["counts"], case["ns"]
@@ -340,8 +443,6 @@ def exec_sync_read(case):
     tags = {"kind": "sync_read", "typ": "nidq" if typ == "nidq" else "imec"}
     D = np.array(data, dtype=np.int64).reshape(ns, nc)
     wcols, acols = _layout(typ, counts, nc)
-    if len(wcols) != 1:
-        tags["digital_words"] = len(wcols)
     start, stop = (0, 10000) if sl is None else sl
     a, b = _adjust(start, ns), _adjust(stop, ns)
     sel = list(range(a, max(a, b)))
@@ -350,13 +451,21 @@ def exec_sync_read(case):
     assert gain_i.denominator == 1
     thr_eff = float(np.float32(1.2 if thr is None else thr))   # comparison happens in float32
     thr_i = Fraction(thr_eff) * ONE
-    assert thr_i.denominator == 1, "threshold not representable in the model's unit"
+    thr_d = Fraction(THR_DEFAULT) * ONE
+    assert thr_i.denominator == 1 and thr_d.denominator == 1, "threshold not representable in the model's unit"
     use_floor = (fl == "default") or bool(fl)
+    in_domain = len(wcols) == 1                     # the property speaks of THE sync word of a sample
+    r.info["in_domain"] = in_domain
+    exp_an, safe1 = analog_safety(D, sel, acols, gain_f, thr_eff, use_floor)
+    exp_an_d, safe2 = analog_safety(D, sel, acols, gain_f, THR_DEFAULT, True)
+    if not (safe1 and safe2):
+        r.info["unsafe"] = True
     tmp = common.tmpdir("C10_")
     sr = None
-    floors_i = []
     try:
         p = write_recording(tmp, typ, counts, ns, data, range_max)
+        if case.get("path_as_str"):
+            p = str(p)
         sr = spikeglx.Reader(p)
         kwargs = {}
         if thr is not None:
@@ -364,86 +473,81 @@ def exec_sync_read(case):
         if fl != "default":
             kwargs["floor_percentile"] = fl
         args = () if sl is None else (slice(start, stop),)
-        # the floor that read_sync subtracts (same NumPy call, same data)
-        if acols and use_floor and len(wcols) == 1:
-            an = sr.read_sync_analog(*args)
-            if an is not None and an.shape[0] > 0:
-                pc = np.percentile(an, 10, axis=0)
-                for c, col in enumerate(acols):
-                    f = Fraction(float(pc[c])) * ONE
-                    srt = sorted(int(D[t, col]) for t in sel)
-                    lo = srt[int(np.floor(0.1 * (len(srt) - 1)))]
-                    if f.denominator != 1 or f != lo * gain_i:
-                        r.info["inexact_floor"] = True
-                    floors_i.append(int(f) if f.denominator == 1 else 0)
-            else:
-                floors_i = [0] * len(acols)
-        try:
-            s = sr.read_sync(*args, **kwargs)
-            dg = sr.read_sync_digital(*args)
-            an2 = sr.read_sync_analog(*args)
-            exc = None
-        except Exception as e:
-            s, exc = None, e
+        order = case.get("call_order", 0)            # the reader is stateful (memmap): vary the call sequence
+        calls = {"rs": lambda: sr.read_sync(*args, **kwargs), "dg": lambda: sr.read_sync_digital(*args),
+                 "an": lambda: sr.read_sync_analog(*args),
+                 "rd": lambda: sr.read(*args)[1]}
+        seq = [["rs", "dg", "an", "rd"], ["rd", "an", "dg", "rs"], ["an", "rs", "rd", "dg", "rs"]][order % 3]
+        got = {}
+        for name in seq:
+            val, exc = _try(calls[name])
+            if name in got and exc is None and got[name][1] is None and not np.array_equal(got[name][0], val):
+                r.bad.append(("read_sync returns a different array when called again on the same reader",
+                              dict(tags, defect="stateful")))
+            got[name] = (val, exc)
         r.inp = ([4, 1 if typ == "nidq" else 0] + list(counts) + ([0] if typ != "nidq" else []) +
-                 [nc, start, stop, ONE, int(thr_i), int(gain_i), 1 if use_floor else 0,
-                  len(floors_i)] + floors_i + [ns] + [int(v) for v in data])
-        if exc is not None:
-            r.out = [0]
-            if len(wcols) > 1:
-                tags["defect"] = "multiword_digital"
-            elif len(wcols) == 0:
-                tags["defect"] = "no_digital_word"
-            elif not sel and acols and use_floor:
-                tags["defect"] = "empty_selection_floor"
+                 [nc, start, stop, ONE, int(thr_i), int(gain_i), 1 if use_floor else 0, int(thr_d), ns] +
+                 [int(v) for v in data])
+        r.out = []
+        for name in ("rs", "dg", "an", "rd"):
+            val, exc = got[name]
+            if exc is not None:
+                r.out += [0]
+            elif name == "an":
+                r.out += _enc_volts(val)
             else:
-                tags["defect"] = "exception"
-            r.bad.append(("read_sync raised %r; the recording has %d sync word(s) and %d analog sync channel(s)"
-                          % (exc, len(wcols), len(acols)), tags))
+                r.out += _enc_rows(val)
+        if r.info.get("unsafe"):
             return r
-        s = np.asarray(s)
-        r.out = [1, s.shape[0]] + [v for row in s.tolist() for v in [len(row)] + [int(q) for q in row]]
-        if r.info.get("inexact_floor"):
-            return r      # the oracle below needs the exact floor; reported by the caller as a harness note
-        # ---- the property's predicate
-        exp_rows = []
-        for t in sel:
-            row = []
-            for wc in wcols:
-                row += py_bits(D[t, wc])
-            for c, col in enumerate(acols):
-                v = Fraction(int(D[t, col])) * gain_i - (floors_i[c] if use_floor else 0)
-                row.append(1 if v >= thr_i else 0)
-            exp_rows.append(row)
-        if len(wcols) != 1 and s.shape[0] != len(sel):
-            r.bad.append(("read_sync returned %d rows for %d samples; the recording has %d sync word(s)" % (
-                s.shape[0], len(sel), len(wcols)),
-                dict(tags, defect="multiword_digital" if len(wcols) > 1 else "no_digital_word")))
-        if thr_eff > 0 and len(wcols) == 1:
+        # ---- the property's predicate (domain: one sync word per sample)
+        if not in_domain:
+            r.info["observation"] = "recording with %d sync words: %s" % (
+                len(wcols), "; ".join("%s -> %s" % (n, "raises " + type(got[n][1]).__name__ if got[n][1] is not None
+                                                    else "shape " + str(np.shape(got[n][0]))) for n in ("rs", "dg")))
+            return r
+        dig = [py_bits(D[t, wcols[0]]) for t in sel]
+        for name, eb, this_thr in (("rs", exp_an, thr_eff), ("rd", exp_an_d, THR_DEFAULT)):
+            val, exc = got[name]
+            what = "read_sync" if name == "rs" else "Reader.read(...)[1]"
+            if exc is not None:
+                d = "empty_selection_floor" if (not sel and acols and (use_floor or name == "rd")) else "exception"
+                r.bad.append(("%s raised %r for %d selected samples; the recording has 1 sync word and %d analog "
+                              "sync channel(s)" % (what, exc, len(sel), len(acols)), dict(tags, defect=d)))
+                continue
+            if this_thr <= 0:
+                continue          # a non-positive threshold makes every analog sample read 1 (model theorem)
+            s = np.asarray(val)
+            exp_rows = [dig[k] + eb[k] for k in range(len(sel))]
             if s.shape != (len(sel), 16 + len(acols)):
-                r.bad.append(("read_sync returned shape %s for %d samples, 16 digital + %d analog lines" % (
-                    s.shape, len(sel), len(acols)), dict(tags, defect="shape")))
+                r.bad.append(("%s returned shape %s for %d samples, 16 digital + %d analog lines" % (
+                    what, s.shape, len(sel), len(acols)), dict(tags, defect="shape")))
             elif s.dtype != np.int8:
-                r.bad.append(("read_sync returned dtype %s" % s.dtype, dict(tags, defect="dtype")))
+                r.bad.append(("%s returned dtype %s" % (what, s.dtype), dict(tags, defect="dtype")))
             elif s.tolist() != exp_rows:
                 t = next(i for i in range(len(sel)) if s[i].tolist() != exp_rows[i])
                 k = next(j for j in range(s.shape[1]) if s[t, j] != exp_rows[t][j])
-                r.bad.append(("read_sync row %d column %d is %d, expected %d (%s line)" % (
-                    sel[t], k, s[t, k], exp_rows[t][k], "digital" if k < 16 else "analog"),
+                r.bad.append(("%s row %d column %d is %d, expected %d (%s line)" % (
+                    what, sel[t], k, s[t, k], exp_rows[t][k], "digital" if k < 16 else "analog"),
                     dict(tags, defect="digital" if k < 16 else "analog")))
-            if not np.array_equal(dg, s[:, :16]):
-                r.bad.append(("read_sync_digital differs from the first 16 columns of read_sync",
-                              dict(tags, defect="digital_api")))
-            if (an2 is None) != (len(acols) == 0) or (an2 is not None and an2.shape != (len(sel), len(acols))):
-                r.bad.append(("read_sync_analog shape/None does not match %d analog lines" % len(acols),
+        dg, exc = got["dg"]
+        if exc is not None:
+            r.bad.append(("read_sync_digital raised %r" % (exc,), dict(tags, defect="digital_api")))
+        elif np.asarray(dg).shape != (len(sel), 16) or np.asarray(dg).tolist() != dig:
+            r.bad.append(("read_sync_digital is not one row of 16 decoded lines per selected sample",
+                          dict(tags, defect="digital_api")))
+        an2, exc = got["an"]
+        if exc is not None:
+            r.bad.append(("read_sync_analog raised %r" % (exc,), dict(tags, defect="analog_api")))
+        elif (an2 is None) != (len(acols) == 0) or (an2 is not None and an2.shape != (len(sel), len(acols))):
+            r.bad.append(("read_sync_analog shape/None does not match %d analog lines" % len(acols),
+                          dict(tags, defect="analog_api")))
+        elif an2 is not None:
+            expv = np.array([[float(Fraction(int(D[t, col])) * gain_f) for col in acols] for t in sel],
+                            dtype=np.float32).reshape(len(sel), len(acols))
+            if not np.array_equal(an2, expv):
+                r.bad.append(("read_sync_analog volts differ from sample * range / 32768",
                               dict(tags, defect="analog_api")))
-            elif an2 is not None:
-                expv = np.array([[float(Fraction(int(D[t, col])) * gain_f) for col in acols] for t in sel],
-                                dtype=np.float32).reshape(len(sel), len(acols))
-                if not np.array_equal(an2, expv):
-                    r.bad.append(("read_sync_analog volts differ from sample * range / 32768",
-                                  dict(tags, defect="analog_api")))
-        r.nontrivial = len(sel) > 0 and bool(np.any(s))
+        r.nontrivial = len(sel) > 0 and got["rs"][1] is None and bool(np.any(got["rs"][0]))
         return r
     finally:
         if sr is not None:
@@ -601,6 +705,24 @@ def gen_split(ctx):
         else:
             cases.append({"kind": "split", "dtype": "int16", "exhaustive": True,
                           "values": [w - 65536 if w >= 32768 else w for w in chunk]})
+    # the same sweep in the other containers a sync trace arrives in
+    step_ = 4096
+    for ci, (dt, lay, shift) in enumerate([("int32", "plain", 0), ("int32", "plain", -65536), ("int64", "plain", 65536),
+                                           ("uint32", "plain", 0), ("int16", "column", 0), ("uint16", "column", 0),
+                                           ("int64", "list", 0), ("uint16", "strided", 0), ("int16", "reversed", 0)]):
+        if not ctx.thorough() and ci >= 5:
+            # quick tier: the remaining containers on a 1-in-4 sample of the chunks
+            sel_chunks = range((ci % 4) * step_, 65536, 4 * step_)
+        else:
+            sel_chunks = range(0, 65536, step_)
+        for i in sel_chunks:
+            chunk = words[i:i + step_]
+            if dt in ("int16",):
+                vals = [w - 65536 if w >= 32768 else w for w in chunk]
+            else:
+                vals = [w + shift for w in chunk]
+            cases.append({"kind": "split", "dtype": dt, "values": vals, "layout": lay, "exhaustive": True,
+                          "container": "%s/%s/%d" % (dt, lay, shift)})
     edge = [0, 1, 2, 255, 256, 257, 127, 128, 32767, 32768, 65535, 65534, 0x00FF, 0xFF00, 0x0F0F, 0xF0F0,
             0x5555, 0xAAAA, 0x8000, 0x0080, 0x0100, 0x8001, 0x7FFE]
     nsmall = 300 if ctx.thorough() else 40
@@ -641,7 +763,7 @@ def gen_fronts(ctx):
         n = rng.choice([0, 1, 2, 3, 4, 5, 8, 13, 30, 60, 120])
         c = {"kind": "fronts1", "mode": 0, "axis": rng.choice([None, None, -1, 0])}
         if kind < 0.35:      # TTL line as split_sync returns it
-            c.update(dtype=rng.choice(["int8", "int8", "int64", "float64"]),
+            c.update(dtype=rng.choice(["int8", "int8", "int64", "float64", "float32", "int16", "int32"]),
                      x=_train(rng, n, rng.choice([0.05, 0.3, 0.5, 1.0])), step=1, rstep=1, fstep=-1,
                      defaults=rng.random() < 0.7)
         elif kind < 0.75:    # multi-level integer signal, steps around the jump sizes
@@ -674,6 +796,21 @@ def gen_fronts(ctx):
             x = [rng.choice(pool) for _ in range(n)]
             c.update(mode=1, dtype="float64", x=x, step=0, rstep=thr, fstep=fthr)
         cases.append(c)
+    # lines that start high / fall at the first detectable sample / single-sample pulses at both ends
+    for x in ([1, 0], [1, 1, 0], [1, 0, 1], [0, 1], [1, 0, 0, 0, 1], [1, 1, 1, 1], [0, 0, 0, 1], [1, 0, 1, 0, 1, 0]):
+        for dt in ("int8", "float32", "int64"):
+            cases.append({"kind": "fronts1", "mode": 0, "axis": None, "dtype": dt, "x": x, "step": 1, "rstep": 1,
+                          "fstep": -1, "defaults": True})
+    # the same 0/1 trains in containers without a sign
+    nb = 300 if ctx.thorough() else 40
+    for j in range(nb):
+        n = rng.choice([0, 1, 2, 3, 5, 9, 30])
+        st = rng.choice([(1, 1, -1), (1, 1, -1), (0, 0, 0), (2, 2, -2), (1, 0, -2)])
+        dflt = st == (1, 1, -1) and rng.random() < 0.7
+        cases.append({"kind": "fronts1", "mode": rng.choice([2, 3]), "axis": rng.choice([None, -1, 0]),
+                      "dtype": "int8", "x": [1, 0] if j == 0 else ([0, 1] if j == 1 else
+                                                                    _train(rng, n, rng.choice([0.2, 0.5, 1.0]))),
+                      "step": st[0], "rstep": st[1], "fstep": st[2], "defaults": dflt})
     n2 = 2000 if ctx.thorough() else 250
     for j in range(n2):
         nr, nc = rng.choice([(1, 1), (1, 7), (7, 1), (2, 2), (2, 9), (3, 5), (5, 3), (4, 16), (16, 12), (6, 40),
@@ -708,10 +845,13 @@ def gen_fronts(ctx):
     return cases
 
 
-def _analog_column(rng, ns, base, thr_counts):
+def _analog_column(rng, ns, base, thr_counts, noisy=None):
     """mostly at baseline (so the 10th percentile is the baseline), pulses whose height sits
     around the threshold: thr-1, thr, thr+1 counts above baseline."""
-    col = [base] * ns
+    if noisy is None:
+        noisy = rng.random() < 0.5
+    # noisy baseline: the order statistics around the 10 % point differ, so np.percentile interpolates
+    col = [base + (rng.choice([-30, -20, -10, -7, -3, 0, 0, 2, 5, 10, 20]) if noisy else 0) for _ in range(ns)]
     high_duty = rng.random() < 0.35      # mostly high: the median sits on the pulses, the 10th percentile does not
     t = rng.randrange(0, max(1, ns // 4))
     while t < ns:
@@ -724,7 +864,7 @@ def _analog_column(rng, ns, base, thr_counts):
         q = ns // 4 + 1
         a = rng.randrange(0, ns - q + 1)
         for u in range(a, a + q):
-            col[u] = base
+            col[u] = base + (rng.choice([-10, -5, 0, 5, 10]) if noisy else 0)
     return col
 
 
@@ -781,21 +921,27 @@ def gen_sync_read(ctx):
         sl = rng.choice([None, None, [0, ns], [0, ns], [3, ns - 2], [-15, ns + 5], [ns // 2, ns // 2], [5, 3],
                          [1, 10000], [-10 ** 6, 10 ** 6], [-7, -1]])
         fl = rng.choice(["default", "default", "default", 10, 0, None, 50])
-        # the model takes the subtracted floor as data; keep the float32 subtraction exact: the two order
-        # statistics np.percentile interpolates between must coincide, otherwise read without the floor
-        if typ == "nidq" and fl not in (0, None):
+        # float32 rounding of an interpolated floor must not be able to flip a bit (>= 10x margin, see
+        # analog_safety): redraw the analog columns until that holds, finally fall back to baseline-dominated ones
+        if typ == "nidq" and counts[2] > 0:
             st, sp = (0, 10000) if sl is None else sl
             a_, b_ = _adjust(st, ns), _adjust(sp, ns)
-            nsel = max(0, b_ - a_)
-            for c in range(counts[2]):
-                srt = sorted(D[t][counts[0] + counts[1] + c] for t in range(a_, a_ + nsel))
-                if nsel:
-                    lo = int(0.1 * (nsel - 1))
-                    if srt[lo] != srt[min(lo + 1, nsel - 1)]:
-                        fl = rng.choice([0, None])
-                        break
+            sel_ = list(range(a_, max(a_, b_)))
+            acols_ = list(range(counts[0] + counts[1], counts[0] + counts[1] + counts[2]))
+            use_fl = (fl == "default") or bool(fl)
+            for attempt in range(40):
+                Dn = np.array(D, dtype=np.int64).reshape(ns, nc)
+                gf = Fraction(range_max) / 32768
+                if (analog_safety(Dn, sel_, acols_, gf, thr_eff, use_fl)[1]
+                        and analog_safety(Dn, sel_, acols_, gf, THR_DEFAULT, True)[1]):
+                    break
+                for c in range(counts[2]):
+                    col = _analog_column(rng, ns, rng.choice([0, 37, -120, 900]), thr_counts, noisy=attempt < 30)
+                    for t in range(ns):
+                        D[t][counts[0] + counts[1] + c] = max(-32768, min(32767, col[t]))
         c = {"kind": "sync_read", "typ": typ, "counts": counts, "ns": ns, "nc": nc, "range_max": range_max,
-             "data": [v for row in D for v in row], "slice": sl, "threshold": thr, "floor": fl}
+             "data": [v for row in D for v in row], "slice": sl, "threshold": thr, "floor": fl,
+             "path_as_str": rng.random() < 0.3, "call_order": rng.randrange(3)}
         cases.append(c)
     return cases
 
@@ -863,6 +1009,7 @@ def run(ctx):
     nontrivial = set()
     words_seen = set()
     inexact = 0
+    observations = []
     for case in cases:
         try:
             res = execute(case)
@@ -872,8 +1019,10 @@ def run(ctx):
         dist[case["kind"]] = dist.get(case["kind"], 0) + 1
         for what, tags in res.bad:
             ctx.fail(what, case, tags)
-        if res.info.get("inexact_floor"):
+        if res.info.get("unsafe"):
             inexact += 1
+        if res.info.get("observation"):
+            observations.append(res.info["observation"])
         if case["kind"] == "split" and case.get("exhaustive") and not res.bad:
             words_seen.update(v % 65536 for v in case["values"])
         if res.nontrivial:
@@ -883,8 +1032,10 @@ def run(ctx):
             outputs.append(res.out)
             owners.append(case)
     if inexact:
-        ctx.disagree("np.percentile floor was not the baseline in %d generated recordings "
-                     "(generator assumption broken)" % inexact, {"kind": "harness"})
+        ctx.disagree("%d generated recordings have a sample within float32 rounding of floor + threshold "
+                     "(generator guarantee broken)" % inexact, {"kind": "harness"})
+    ctx.measurements["recordings_outside_the_property_domain_observed_only"] = len(observations)
+    ctx.notes.extend(sorted(set(observations))[:6])
     common.correspondence(ctx, PROP, HEADER, inputs, outputs, lambda i: owners[i], n_kernel=60)
     samples = []
     for kind in ("split", "fronts1", "fronts2", "sync_read", "ttl"):
